@@ -522,7 +522,11 @@ class Interp(object):
 
     def instantiate(self, cls, args, kwargs):
         if issubclass(cls, BaseException):
-            return SObj(cls, {"args": tuple(args)})
+            obj = SObj(cls, {"args": tuple(args)})
+            init = self.class_attr(cls, "__init__")
+            if isinstance(init, types.FunctionType) and self._has_source(init):
+                self.call_value(BoundMethod(init, obj), args, kwargs)
+            return obj
         h = self.models.class_model(self, cls, args, kwargs)
         if h is not NotImplemented:
             return h
